@@ -1314,7 +1314,7 @@ class BinaryOperator(SymbolicExpression, ABC):
             -> Iterable[Dict[int, HashedValue]]:
         cache = self._cache_ if cache is None else cache
         entered = False
-        for output, is_false in cache.retrieve(variables_sources):
+        for output, is_false in self._most_general_(cache.retrieve(variables_sources)):
             entered = True
             self._is_false_ = is_false
             cache_match_count.values[self._node_.name] += 1
@@ -1326,9 +1326,25 @@ class BinaryOperator(SymbolicExpression, ABC):
         cache_enter_count.values[self._node_.name] = cache.enter_count
         cache_search_count.values[self._node_.name] = cache.search_count
 
+    @staticmethod
+    def _most_general_(retrieved: Iterable[Tuple[Dict[int, HashedValue], Any]]) -> List[Tuple[Dict[int, HashedValue], Any]]:
+        """
+        Of the cached entries that match a lookup keep the most general ones: an entry that leaves a variable open stands
+        for all values of that variable, so an entry that also binds that variable says the same thing again.
+        """
+        retrieved = list(retrieved)
+        kept = []
+        for i, (output, value) in enumerate(retrieved):
+            items = output.items()
+            if any(other.items() < items or (other.items() == items and j < i)
+                   for j, (other, _) in enumerate(retrieved) if j != i):
+                continue
+            kept.append((output, value))
+        return kept
+
     def yield_from_cache(self, variables_sources, cache: IndexedCache) -> Iterable[Tuple[Dict[int, HashedValue], bool]]:
         entered = False
-        for output, is_false in cache.retrieve(variables_sources):
+        for output, is_false in self._most_general_(cache.retrieve(variables_sources)):
             entered = True
             cache_match_count.values[self._node_.name] += 1
             yield output, is_false
